@@ -1,11 +1,12 @@
 /-
   C02 for the other index kinds, by composition with their own properties' theorems:
   an exact top-k of the specification's candidates is a sound answer (`isTopK_cands_sound`).
-  (IVF: added when C13's model is in the tree; HNSW: C12's exactness is partial, the
-  correspondence checker `checkSound` decides every HNSW answer.)
+  (HNSW: C12's exactness is partial, the correspondence checker `checkSound` decides every
+  HNSW answer.)
 -/
 import CometProofs.Properties.C02
 import CometProofs.Properties.C14
+import CometProofs.Properties.C13
 namespace Comet.PQ
 open Comet.Pipeline
 
@@ -31,3 +32,48 @@ theorem pq_sound [DecidableEq S] (m : Metric (List S) S) (A : Arith S) (ord : m.
   exact ⟨res, h1, Flat.isTopK_cands_sound _ _ hn _ thr F k res h2⟩
 
 end Comet.PQ
+
+namespace Comet.Pipeline
+variable {V S : Type}
+
+/-- soundness w.r.t. a part of the live set is soundness w.r.t. the live set -/
+theorem Sound.mono_live {sc : Scalar S} {scoreOK : V → S → Bool} {live' live : List (Id × V)}
+    {F : List Id} {thr : S} {k : Int} {res : List (Hit S)}
+    (h : Sound sc scoreOK live' F thr k res) (hsub : ∀ e ∈ live', e ∈ live) :
+    Sound sc scoreOK live F thr k res :=
+  ⟨fun x hx => by
+      obtain ⟨v, hv, hs⟩ := h.live_scored x hx
+      exact ⟨v, hsub _ hv, hs⟩,
+   h.eligible, h.within, h.distinct, h.sorted, h.atMostK⟩
+
+end Comet.Pipeline
+
+namespace Comet.IVF
+open Comet.Pipeline
+
+variable {V S : Type}
+
+/-- Every IVF answer — any post-training history, any query, k, threshold, id restriction
+    and ANY number of probes — is live, eligible, within threshold, duplicate-free,
+    ascending, at most k, and carries the true metric distance (by composition with C13's
+    `ivf_partial_exact`). -/
+theorem ivf_sound [DecidableEq S] (m : Metric V S) (ord : m.sc.Ordered) (inf : S)
+    (dim nlist n : Nat) (cs : List V)
+    (hpos : 0 < nlist) (hn : nlist ≤ n) (hcs : cs.length = nlist)
+    (ops : List (Flat.Op V))
+    (hnd : ((Flat.live m dim ops).map (·.1)).Nodup)
+    (q q' : V) (k : Int) (thr : S) (F : List Id) (p : Int)
+    (hq : m.dimOf q = dim) (hpre : m.pre q = some q') :
+    ∃ res, searchSingle m (trainedRun m inf dim nlist n cs ops) q k thr F p = .ok res ∧
+      Sound m.sc (fun v s => decide (s = m.dist q' v)) (Flat.live m dim ops) F thr k res := by
+  obtain ⟨res, h1, _, h3⟩ :=
+    ivf_partial_exact m ord inf dim nlist n cs hpos hn hcs ops q q' k thr F p hq hpre
+  refine ⟨res, h1, ?_⟩
+  unfold probeCands at h3
+  have hnd' : ((inClusters m inf cs (probe m q' cs (clampProbes p nlist))
+      (Flat.live m dim ops)).map (·.1)).Nodup :=
+    ((List.filter_sublist).map _).nodup hnd
+  exact (Flat.isTopK_cands_sound m _ hnd' q' thr F k res h3).mono_live
+    (fun e he => (List.mem_filter.1 he).1)
+
+end Comet.IVF
